@@ -29,7 +29,8 @@ LEVEL = 'model_checking'
 ENGINE = 'E2 small-scope enumeration against a nested-loop relational / dictionary reference + differential'
 RULE = ('joins: the C06 pair space (every pair of tables whose key vectors are ALL tuples of length 0..3 over '
         'K4={None,i1,i2,s1}; thorough also K6 with float(i1)==i1; variants key= / lkey,rkey / natural / compound / '
-        'compound with swapped right columns / tuple-valued cells in a single key field (K4 + (i1,), (i1,i2), (None,s1), '
+        'compound with swapped right columns / CALL STYLE (documented arguments given positionally in the documented '
+        'order, method syntax of a wrapped table, both; hash operator and counterpart alike) / tuple-valued cells in a single key field (K4 + (i1,), (i1,i2), (None,s1), '
         '()) with key=, missing=text, lkey/rkey by name and index / ragged shapes x missing (not hashantijoin, which does not square '
         'up) / prefixes / missing=text / right table with key fields only) x hashjoin hashleftjoin hashrightjoin '
         'hashantijoin hashlookupjoin x cache in {True, False} where the operator has the argument x passes 1,2,3 '
@@ -308,7 +309,7 @@ def check_hash(op, left, right, kw, passes=PASSES, stats=None):
     exp = [hdr] + rows
     outs = []
     try:
-        view = getattr(etl, op)(left, right, **kw)
+        view = J.invoke(etl, op, left, right, kw)
         for p in range(passes):
             outs.append(_rows(view))
             if stats is not None:
@@ -355,7 +356,7 @@ def check_counterpart(op, left, right, kw, hash_out):
     if ckw is None or hash_out is None:
         return []
     try:
-        mout = _rows(getattr(etl, cp)(left, right, **ckw))
+        mout = _rows(J.invoke(etl, cp, left, right, ckw))
     except Exception as e:
         return [('%s vs %s | counterpart raises %s (hash result is the relational one)'
                  % (op, cp, type(e).__name__), hash_out, _exc(e),
